@@ -8,13 +8,21 @@ Definition refs_n (l : list hrec) (h : nat) : nat := match nth_error l h with So
 (* dlclose has been called on a handle exactly when its use count is zero, and then once *)
 Definition cl_ok (r : hrec) : Prop := closes r = if Nat.eqb (refs r) 0 then 1 else 0.
 
-Record dinv (st : dstate) : Prop := mkDInv {
-  k_cnt : forall h, cnt okey h (slots st) = refs_n (hs st) h;     (* use count = number of owner objects *)
-  k_cl : Forall cl_ok (hs st);
-  k_nc : null_closes st = 0 }.
+(* an owning symbol's function pointer points into the library its shared_ptr keeps alive *)
+Definition sym_ok (o : option owner) : Prop :=
+  match o with Some (OSym (Some h) fh _) => fh = h | _ => True end.
 
-Lemma holds_okey h o : holds okey h o = match o with Some x => if Nat.eqb (owner_h x) h then 1 else 0 | None => 0 end.
-Proof. destruct o; reflexivity. Qed.
+Record dinv (st : dstate) : Prop := mkDInv {
+  k_cnt : forall h, cnt okey h (slots st) = refs_n (hs st) h;     (* use count = number of owning objects *)
+  k_cl : Forall cl_ok (hs st);
+  k_nc : null_closes st = 0;
+  k_fn : Forall sym_ok (slots st) }.
+
+(* 1 when the (possibly null) shared_ptr ho refers to handle k *)
+Definition hn (ho : option nat) (k : nat) : nat := match ho with Some h => if Nat.eqb h k then 1 else 0 | None => 0 end.
+
+Lemma holds_okey h o : holds okey h o = hn (okey o) h.
+Proof. unfold holds, hn. destruct (okey o); reflexivity. Qed.
 
 Lemma setn_setn {A} (l : list A) k x y : setn (setn l k x) k y = setn l k y.
 Proof. revert k; induction l as [|z l IH]; intros [|k]; simpl; auto. f_equal; auto. Qed.
@@ -109,39 +117,99 @@ Proof. unfold slot_owner. destruct (nth_error (slots st) j) as [[x|]|]; try disc
 Lemma slot_empty_nth st i : slot_empty st i = true -> nth_error (slots st) i = Some None.
 Proof. unfold slot_empty. destruct (nth_error (slots st) i) as [[x|]|]; try discriminate. reflexivity. Qed.
 
-Lemma owner_has_refs st j o : dinv st -> slot_owner st j = Some o ->
-  exists r, nth_error (hs st) (owner_h o) = Some r /\ 0 < refs r.
+Lemma owner_has_refs st j o h : dinv st -> slot_owner st j = Some o -> owner_h o = Some h ->
+  exists r, nth_error (hs st) h = Some r /\ 0 < refs r.
 Proof.
-  intros I H. apply slot_owner_nth in H. apply refs_n_range. rewrite <- (k_cnt _ I).
-  pose proof (cnt_nth okey (owner_h o) _ _ _ H) as C. rewrite holds_okey, Nat.eqb_refl in C. lia.
+  intros I H Hh. apply slot_owner_nth in H. apply refs_n_range. rewrite <- (k_cnt _ I).
+  pose proof (cnt_nth okey h _ _ _ H) as C. rewrite holds_okey in C. simpl in C. rewrite Hh in C. simpl in C.
+  rewrite Nat.eqb_refl in C. lia.
+Qed.
+
+(* ---------- possibly-null shared_ptr: copy and destroy ---------- *)
+
+Lemma sp_copy_opt_spec st ho :
+  (forall h, ho = Some h -> 0 < refs_n (hs st) h) -> Forall cl_ok (hs st) ->
+  let st' := sp_copy_opt st ho in
+  slots st' = slots st /\ pend st' = pend st /\ null_closes st' = null_closes st
+  /\ Forall cl_ok (hs st') /\ (forall k, refs_n (hs st') k = refs_n (hs st) k + hn ho k).
+Proof.
+  intros Hpos Hcl. destruct ho as [h|]; simpl.
+  - destruct (refs_n_range _ _ (Hpos h eq_refl)) as (r & Hr & Hp).
+    destruct (sp_copy_spec st h r Hr Hp Hcl) as (_ & C & R). repeat split; auto.
+  - repeat split; auto.
+Qed.
+
+Lemma sp_drop_opt_spec st ho :
+  (forall h, ho = Some h -> 0 < refs_n (hs st) h) -> Forall cl_ok (hs st) ->
+  let st' := sp_drop_opt st ho in
+  slots st' = slots st /\ pend st' = pend st /\ null_closes st' = null_closes st
+  /\ Forall cl_ok (hs st') /\ (forall k, refs_n (hs st') k + hn ho k = refs_n (hs st) k)
+  /\ length (hs st') = length (hs st).
+Proof.
+  intros Hpos Hcl. destruct ho as [h|]; simpl.
+  - destruct (refs_n_range _ _ (Hpos h eq_refl)) as (r & Hr & Hp).
+    destruct (sp_drop_spec st h r Hr Hp Hcl) as (S1 & S2 & S3 & S4 & S5 & S6). repeat split; auto.
+    rewrite S6. apply setn_length.
+  - repeat split; auto.
+Qed.
+
+(* the workhorse: a state whose owner counts are right except that one more reference ho is still held by an object
+   that is about to let go of it; letting go restores the invariant *)
+Lemma drop_restores st ho :
+  Forall cl_ok (hs st) -> null_closes st = 0 -> Forall sym_ok (slots st) ->
+  (forall k, cnt okey k (slots st) + hn ho k = refs_n (hs st) k) ->
+  dinv (sp_drop_opt st ho) /\ slots (sp_drop_opt st ho) = slots st /\ pend (sp_drop_opt st ho) = pend st
+  /\ length (hs (sp_drop_opt st ho)) = length (hs st).
+Proof.
+  intros Hcl Hnc Hfn Hc.
+  destruct (sp_drop_opt_spec st ho) as (S1 & S2 & S3 & S4 & S5 & S6); auto.
+  { intros h ->. specialize (Hc h). simpl in Hc. rewrite Nat.eqb_refl in Hc. lia. }
+  repeat split; auto.
+  - intros k. rewrite S1. specialize (S5 k). specialize (Hc k). lia.
+  - rewrite S3. auto.
+  - rewrite S1. auto.
+Qed.
+
+Lemma okey_some o : okey (Some o) = owner_h o.
+Proof. reflexivity. Qed.
+
+Lemma owner_h_with o h : owner_h (with_h o h) = h.
+Proof. destruct o; reflexivity. Qed.
+
+Lemma sym_ok_with_none o : sym_ok (Some (with_h o None)).
+Proof. destruct o; simpl; auto. Qed.
+
+Lemma slot_sym_ok st j o : dinv st -> slot_owner st j = Some o -> sym_ok (Some o).
+Proof.
+  intros I H. apply slot_owner_nth in H. pose proof (k_fn _ I) as F. rewrite Forall_forall in F.
+  apply F. eapply nth_error_In; eauto.
+Qed.
+
+(* a new owner object in empty slot i whose shared_ptr is a fresh copy of ho *)
+Lemma add_owner_ok st st1 i o : dinv st -> slot_empty st i = true ->
+  slots st1 = slots st -> null_closes st1 = null_closes st -> Forall cl_ok (hs st1) ->
+  (forall k, refs_n (hs st1) k = refs_n (hs st) k + hn (owner_h o) k) -> sym_ok (Some o) ->
+  dinv (set_slot st1 i (Some o)).
+Proof.
+  intros I He Es En Hcl Hr Hs. apply slot_empty_nth in He. constructor; simpl; auto.
+  - intros h. rewrite Es. pose proof (cnt_setn okey h _ i (Some o) _ He) as C. rewrite !holds_okey in C.
+    simpl in C. rewrite (k_cnt _ I) in C. rewrite Hr. lia.
+  - rewrite En. apply (k_nc _ I).
+  - rewrite Es. apply Forall_setn; auto. apply (k_fn _ I).
 Qed.
 
 (* dropping the owner in slot i *)
 Lemma drop_slot_ok st i o : dinv st -> slot_owner st i = Some o ->
-  let st' := sp_drop (set_slot st i None) (owner_h o) in
+  let st' := sp_drop_opt (set_slot st i None) (owner_h o) in
   dinv st' /\ slots st' = setn (slots st) i None /\ pend st' = pend st /\ length (hs st') = length (hs st).
 Proof.
-  intros I Ho. destruct (owner_has_refs st i o I Ho) as (r & Hr & Hpos).
-  pose proof (slot_owner_nth _ _ _ Ho) as Hn.
-  destruct (sp_drop_spec (set_slot st i None) (owner_h o) r) as (S1 & S2 & S3 & S4 & S5 & S6); simpl; auto.
-  { apply (k_cl _ I). }
-  simpl in *. repeat split; auto.
-  - intros h. rewrite S1. pose proof (cnt_setn okey h _ i None _ Hn) as C. rewrite !holds_okey in C.
-    specialize (S5 h). rewrite (k_cnt _ I) in C. lia.
-  - rewrite S3. apply (k_nc _ I).
-  - rewrite S6. apply setn_length.
-Qed.
-
-(* a new owner in empty slot i for a handle whose use count was raised by one *)
-Lemma add_owner_ok st st1 i o : dinv st -> slot_empty st i = true ->
-  slots st1 = slots st -> null_closes st1 = null_closes st -> Forall cl_ok (hs st1) ->
-  (forall k, refs_n (hs st1) k = refs_n (hs st) k + (if Nat.eqb (owner_h o) k then 1 else 0)) ->
-  dinv (set_slot st1 i (Some o)).
-Proof.
-  intros I He Es En Hcl Hr. apply slot_empty_nth in He. constructor; simpl; auto.
-  - intros h. rewrite Es. pose proof (cnt_setn okey h _ i (Some o) _ He) as C. rewrite !holds_okey in C.
-    rewrite (k_cnt _ I) in C. rewrite Hr. lia.
-  - rewrite En. apply (k_nc _ I).
+  intros I Ho. pose proof (slot_owner_nth _ _ _ Ho) as Hn.
+  destruct (drop_restores (set_slot st i None) (owner_h o)) as (D & S1 & S2 & S3); simpl; auto.
+  - apply (k_cl _ I).
+  - apply (k_nc _ I).
+  - apply Forall_setn; [apply (k_fn _ I)|simpl; auto].
+  - intros k. pose proof (cnt_setn okey k _ i None _ Hn) as C. rewrite !holds_okey in C. simpl in C.
+    rewrite (k_cnt _ I) in C. lia.
 Qed.
 
 (* ---------- closed forms of the two constructors ---------- *)
@@ -172,72 +240,120 @@ Qed.
 (* ---------- one step preserves the invariant ---------- *)
 
 Lemma dinv_ext st st' : hs st' = hs st -> slots st' = slots st -> null_closes st' = null_closes st -> dinv st -> dinv st'.
-Proof. intros E1 E2 E3 [A B C]. constructor; rewrite ?E1, ?E2, ?E3; auto. Qed.
+Proof. intros E1 E2 E3 [A B C D]. constructor; rewrite ?E1, ?E2, ?E3; auto. Qed.
+
+Lemma refs_pos_of_owner st j o : dinv st -> slot_owner st j = Some o ->
+  forall h, owner_h o = Some h -> 0 < refs_n (hs st) h.
+Proof.
+  intros I Ho h Hh. destruct (owner_has_refs st j o h I Ho Hh) as (r & Hr & Hp). unfold refs_n. rewrite Hr. exact Hp.
+Qed.
 
 Lemma dinv_step w st o : dinv st -> dinv (fst (d_step w st o)).
 Proof.
-  intros I. destruct o as [i f|i j s|i j|i j|i j|i|i x|f]; simpl.
+  intros I. destruct o as [i f|i j s|i j|i j|i j|i j|i j|i j|i|i x|f]; simpl.
   - (* DOpen *)
     destruct (slot_empty st i) eqn:Ei; [|exact I].
     destruct (lib_exists w f) eqn:Ef.
     + rewrite dl_ctor_ok by auto. simpl.
-      apply (add_owner_ok st _ i (OLib (length (hs st)))); simpl; auto.
+      apply (add_owner_ok st _ i (OLib (Some (length (hs st))))); simpl; auto.
       * apply Forall_app. split; [apply (k_cl _ I)|]. constructor; auto. reflexivity.
       * intros k. rewrite refs_n_app. simpl. destruct (Nat.eqb (length (hs st)) k); lia.
     + rewrite dl_ctor_fail by auto. simpl. eapply dinv_ext; [| | |exact I]; reflexivity.
   - (* DLoad *)
-    destruct (slot_empty st i) eqn:Ei; [|destruct (slot_owner st j) as [[?|? ?|?]|]; exact I].
-    destruct (slot_owner st j) as [[h|? ?|?]|] eqn:Ej; try exact I.
-    destruct (owner_has_refs st j _ I Ej) as (r & Hr & Hpos). simpl in Hr.
+    destruct (slot_empty st i) eqn:Ei; [|destruct (slot_owner st j) as [[[?|]|? ? ?|?]|]; exact I].
+    destruct (slot_owner st j) as [[[h|]|? ? ?|?]|] eqn:Ej; try exact I.
+    destruct (owner_has_refs st j _ h I Ej eq_refl) as (r & Hr & Hpos).
     rewrite (symbol_ctor_spec w st h s r Hr).
     destruct (sp_copy_spec st h r Hr Hpos (k_cl _ I)) as (E & Hcl & Hrefs).
     destruct (sym_exists w (hlib r) s); simpl.
-    + apply (add_owner_ok st _ i (OSym h s)); simpl; auto.
-    + eapply dinv_ext; [| | |exact I].
-      * apply (sp_copy_drop st h r Hr Hpos (k_cl _ I)).
-      * set (st1 := mkD (hs (sp_copy st h)) (slots st) None (null_closes st)).
-        assert (Hr1 : nth_error (hs st1) h = Some (mkH (hlib r) (S (refs r)) (closes r))).
-        { unfold st1. cbn [hs]. rewrite E. eapply nth_error_setn_eq; eauto. }
-        destruct (sp_drop_spec st1 h _ Hr1 ltac:(simpl; lia) Hcl) as (S1 & _). exact S1.
-      * set (st1 := mkD (hs (sp_copy st h)) (slots st) None (null_closes st)).
-        assert (Hr1 : nth_error (hs st1) h = Some (mkH (hlib r) (S (refs r)) (closes r))).
-        { unfold st1. cbn [hs]. rewrite E. eapply nth_error_setn_eq; eauto. }
-        destruct (sp_drop_spec st1 h _ Hr1 ltac:(simpl; lia) Hcl) as (_ & _ & S3 & _). exact S3.
+    + apply (add_owner_ok st _ i (OSym (Some h) h s)); simpl; auto.
+    + set (st1 := mkD (hs (sp_copy st h)) (slots st) None (null_closes st)).
+      assert (Hr1 : nth_error (hs st1) h = Some (mkH (hlib r) (S (refs r)) (closes r))).
+      { unfold st1. cbn [hs]. rewrite E. eapply nth_error_setn_eq; eauto. }
+      destruct (sp_drop_spec st1 h _ Hr1 ltac:(simpl; lia) Hcl) as (S1 & _ & S3 & _).
+      eapply dinv_ext; [| | |exact I]; auto.
+      apply (sp_copy_drop st h r Hr Hpos (k_cl _ I)).
   - (* DGet *)
-    destruct (slot_empty st i) eqn:Ei; [|destruct (slot_owner st j) as [[?|? ?|?]|]; exact I].
-    destruct (slot_owner st j) as [[h|? ?|?]|] eqn:Ej; try exact I.
-    destruct (owner_has_refs st j _ I Ej) as (r & Hr & Hpos). simpl in Hr.
-    destruct (sp_copy_spec st h r Hr Hpos (k_cl _ I)) as (E & Hcl & Hrefs). simpl.
-    apply (add_owner_ok st _ i (ORaw h)); simpl; auto.
+    destruct (slot_empty st i) eqn:Ei; [|destruct (slot_owner st j) as [[?|? ? ?|?]|]; exact I].
+    destruct (slot_owner st j) as [[ho|? ? ?|?]|] eqn:Ej; try exact I. simpl.
+    destruct (sp_copy_opt_spec st ho) as (S1 & S2 & S3 & S4 & S5).
+    { apply (refs_pos_of_owner st j _ I Ej). }
+    { apply (k_cl _ I). }
+    apply (add_owner_ok st _ i (ORaw ho)); simpl; auto.
   - (* DCopy *)
     destruct (slot_empty st i) eqn:Ei; [|destruct (slot_owner st j); exact I].
-    destruct (slot_owner st j) as [o|] eqn:Ej; try exact I.
-    destruct (owner_has_refs st j _ I Ej) as (r & Hr & Hpos).
-    destruct (sp_copy_spec st _ r Hr Hpos (k_cl _ I)) as (E & Hcl & Hrefs). simpl.
-    apply (add_owner_ok st _ i o); simpl; auto.
+    destruct (slot_owner st j) as [o|] eqn:Ej; try exact I. simpl.
+    destruct (sp_copy_opt_spec st (owner_h o)) as (S1 & S2 & S3 & S4 & S5).
+    { apply (refs_pos_of_owner st j _ I Ej). }
+    { apply (k_cl _ I). }
+    apply (add_owner_ok st _ i o); simpl; auto. apply (slot_sym_ok st j o I Ej).
   - (* DMove *)
     destruct (slot_empty st i) eqn:Ei; [|destruct (slot_owner st j); exact I].
     destruct (slot_owner st j) as [o|] eqn:Ej; try exact I. simpl.
+    pose proof (slot_sym_ok st j o I Ej) as So.
     apply slot_empty_nth in Ei. apply slot_owner_nth in Ej.
     assert (Hne : i <> j) by (intros ->; congruence).
     assert (Ej' : nth_error (setn (slots st) i (Some o)) j = Some (Some o)) by (rewrite nth_error_setn_ne; auto).
-    constructor; simpl; [|apply (k_cl _ I)|apply (k_nc _ I)].
-    intros h. pose proof (cnt_setn okey h _ i (Some o) _ Ei) as C1. pose proof (cnt_setn okey h _ j None _ Ej') as C2.
-    rewrite !holds_okey in *. rewrite <- (k_cnt _ I). lia.
+    constructor; simpl; [|apply (k_cl _ I)|apply (k_nc _ I)|].
+    + intros h. pose proof (cnt_setn okey h _ i (Some o) _ Ei) as C1.
+      pose proof (cnt_setn okey h _ j (Some (with_h o None)) _ Ej') as C2.
+      rewrite !holds_okey in *. simpl in C1, C2. rewrite owner_h_with in C2. simpl in C2. rewrite <- (k_cnt _ I). lia.
+    + apply Forall_setn; [apply Forall_setn; [apply (k_fn _ I)|auto]|apply sym_ok_with_none].
+  - (* DAssign *)
+    destruct (slot_owner st i) as [a|] eqn:Ei; [|exact I].
+    destruct (slot_owner st j) as [b|] eqn:Ej; [|exact I].
+    destruct (same_kind a b); [|exact I]. simpl.
+    destruct (sp_copy_opt_spec st (owner_h b)) as (S1 & S2 & S3 & S4 & S5).
+    { apply (refs_pos_of_owner st j _ I Ej). }
+    { apply (k_cl _ I). }
+    pose proof (slot_owner_nth _ _ _ Ei) as Hi.
+    apply (drop_restores (set_slot (sp_copy_opt st (owner_h b)) i (Some b)) (owner_h a)); simpl; auto.
+    + rewrite S3. apply (k_nc _ I).
+    + rewrite S1. apply Forall_setn; [apply (k_fn _ I)|apply (slot_sym_ok st j b I Ej)].
+    + intros k. rewrite S1, S5. pose proof (cnt_setn okey k _ i (Some b) _ Hi) as C. rewrite !holds_okey in C. simpl in C.
+      rewrite (k_cnt _ I) in C. lia.
+  - (* DMoveAssign *)
+    destruct (slot_owner st i) as [a|] eqn:Ei; [|exact I].
+    destruct (slot_owner st j) as [b|] eqn:Ej; [|exact I].
+    destruct (same_kind a b); [|exact I].
+    destruct (Nat.eqb i j) eqn:Eij; [exact I|]. apply Nat.eqb_neq in Eij. simpl.
+    pose proof (slot_owner_nth _ _ _ Ei) as Hi. pose proof (slot_owner_nth _ _ _ Ej) as Hj.
+    assert (Hj' : nth_error (setn (slots st) i (Some b)) j = Some (Some b)) by (rewrite nth_error_setn_ne; auto).
+    apply (drop_restores (set_slot (set_slot st i (Some b)) j (Some (with_h b None))) (owner_h a)); simpl.
+    + apply (k_cl _ I).
+    + apply (k_nc _ I).
+    + apply Forall_setn; [apply Forall_setn; [apply (k_fn _ I)|apply (slot_sym_ok st j b I Ej)]|apply sym_ok_with_none].
+    + intros k. pose proof (cnt_setn okey k _ i (Some b) _ Hi) as C1.
+      pose proof (cnt_setn okey k _ j (Some (with_h b None)) _ Hj') as C2.
+      rewrite !holds_okey in *. simpl in C1, C2. rewrite owner_h_with in C2. simpl in C2. rewrite <- (k_cnt _ I). lia.
+  - (* DSwap *)
+    destruct (slot_owner st i) as [a|] eqn:Ei; [|exact I].
+    destruct (slot_owner st j) as [b|] eqn:Ej; [|exact I].
+    destruct (same_kind a b); [|exact I]. simpl.
+    pose proof (slot_owner_nth _ _ _ Ei) as Hi. pose proof (slot_owner_nth _ _ _ Ej) as Hj.
+    constructor; simpl; [|apply (k_cl _ I)|apply (k_nc _ I)|].
+    + intros k. destruct (Nat.eq_dec i j) as [->|Hne].
+      * assert (a = b) by congruence. subst b. rewrite setn_setn. rewrite (setn_same _ _ _ Hi). apply (k_cnt _ I).
+      * assert (Hj' : nth_error (setn (slots st) i (Some b)) j = Some (Some b)) by (rewrite nth_error_setn_ne; auto).
+        pose proof (cnt_setn okey k _ i (Some b) _ Hi) as C1. pose proof (cnt_setn okey k _ j (Some a) _ Hj') as C2.
+        rewrite <- (k_cnt _ I). lia.
+    + apply Forall_setn; [apply Forall_setn; [apply (k_fn _ I)|apply (slot_sym_ok st j b I Ej)]|apply (slot_sym_ok st i a I Ei)].
   - (* DDrop *)
     destruct (slot_owner st i) as [o|] eqn:Ei; try exact I. simpl. apply (drop_slot_ok st i o I Ei).
   - (* DCall *)
-    destruct (slot_owner st i) as [[?|h s|?]|]; try exact I. simpl.
-    destruct (nth_error (hs st) h) as [r|]; [destruct (Nat.eqb (closes r) 0)|]; exact I.
+    destruct (slot_owner st i) as [[?|[?|] fh s|?]|]; try exact I. simpl.
+    destruct (nth_error (hs st) fh) as [r|]; [destruct (Nat.eqb (closes r) 0)|]; exact I.
   - (* DStale *)
     eapply dinv_ext; [| | |exact I]; reflexivity.
 Qed.
 
 Lemma dinv_init n : dinv (d_init n).
 Proof.
-  constructor; simpl; auto. intros h. rewrite cnt_all_none.
-  - unfold refs_n. destruct h; reflexivity.
-  - intros a Ha. apply repeat_spec in Ha. subst. reflexivity.
+  constructor; simpl; auto.
+  - intros h. rewrite cnt_all_none.
+    + unfold refs_n. destruct h; reflexivity.
+    + intros a Ha. apply repeat_spec in Ha. subst. reflexivity.
+  - apply Forall_forall. intros a Ha. apply repeat_spec in Ha. subst. exact I.
 Qed.
 
 Lemma dinv_run w ops : forall st, dinv st -> dinv (d_run w st ops).
@@ -255,8 +371,8 @@ Proof. unfold cl_ok. intros ->. destruct (Nat.eqb (refs r) 0); lia. Qed.
 Theorem closed_at_most_once w n ops r : In r (hs (d_run w (d_init n) ops)) -> closes r <= 1.
 Proof. intros H. apply cl_ok_le1. pose proof (k_cl _ (dinv_reach w n ops)) as F. rewrite Forall_forall in F. auto. Qed.
 
-(* a handle is closed exactly when no owner object (library, symbol, raw pointer, or a copy) is left; while one is
-   left it has not been closed *)
+(* a handle is closed exactly when no owner object (library, symbol, raw pointer, or a copy / assignment target) is
+   left; while one is left it has not been closed *)
 Theorem closed_iff_unowned w n ops h r : let st := d_run w (d_init n) ops in
   nth_error (hs st) h = Some r ->
   closes r = (if Nat.eqb (cnt okey h (slots st)) 0 then 1 else 0).
@@ -270,22 +386,62 @@ Qed.
 Theorem null_never_closed w n ops : null_closes (d_run w (d_init n) ops) = 0.
 Proof. apply (k_nc _ (dinv_reach w n ops)). Qed.
 
-(* a call through any symbol object that exists finds its library mapped *)
+(* a symbol object that owns a library — however it got its contents: load, copy, move, assignment, swap — holds a
+   function of exactly that library, and a call through it finds the library mapped *)
 Theorem call_while_mapped w n ops i x : let st := d_run w (d_init n) ops in
   snd (d_step w st (DCall i x)) <> DUnmapped /\
-  (forall h s, slot_owner st i = Some (OSym h s) -> exists r, nth_error (hs st) h = Some r /\ closes r = 0
-                                                     /\ snd (d_step w st (DCall i x)) = DCallOk (hlib r) s x).
+  (forall h fh s, slot_owner st i = Some (OSym (Some h) fh s) ->
+     fh = h /\ exists r, nth_error (hs st) h = Some r /\ closes r = 0
+                       /\ snd (d_step w st (DCall i x)) = DCallOk (hlib r) s x).
 Proof.
   intros st. subst st. set (st := d_run w (d_init n) ops). pose proof (dinv_reach w n ops) as I. fold st in I.
-  assert (K : forall h s, slot_owner st i = Some (OSym h s) -> exists r, nth_error (hs st) h = Some r /\ closes r = 0).
-  { intros h s Ho. destruct (owner_has_refs st i _ I Ho) as (r & Hr & Hpos). simpl in Hr. exists r. split; auto.
-    pose proof (k_cl _ I) as F. rewrite Forall_forall in F. specialize (F r (nth_error_In _ _ Hr)). unfold cl_ok in F.
+  assert (K : forall h fh s, slot_owner st i = Some (OSym (Some h) fh s) ->
+              fh = h /\ exists r, nth_error (hs st) h = Some r /\ closes r = 0).
+  { intros h fh s Ho. pose proof (slot_sym_ok st i _ I Ho) as F. simpl in F. split; auto.
+    destruct (owner_has_refs st i _ h I Ho eq_refl) as (r & Hr & Hpos). exists r. split; auto.
+    pose proof (k_cl _ I) as G. rewrite Forall_forall in G. specialize (G r (nth_error_In _ _ Hr)). unfold cl_ok in G.
     destruct (Nat.eqb (refs r) 0) eqn:E; [apply Nat.eqb_eq in E; lia|auto]. }
   split.
-  - simpl. destruct (slot_owner st i) as [[?|h s|?]|] eqn:Ho; simpl; try discriminate.
-    destruct (K h s eq_refl) as (r & Hr & Hc). rewrite Hr, Hc. simpl. discriminate.
-  - intros h s Ho. destruct (K h s Ho) as (r & Hr & Hc). exists r. repeat split; auto.
+  - simpl. destruct (slot_owner st i) as [[?|[h|] fh s|?]|] eqn:Ho; simpl; try discriminate.
+    destruct (K h fh s eq_refl) as (-> & r & Hr & Hc). rewrite Hr, Hc. simpl. discriminate.
+  - intros h fh s Ho. destruct (K h fh s Ho) as (-> & r & Hr & Hc). split; auto. exists r. repeat split; auto.
     simpl. rewrite Ho, Hr, Hc. reflexivity.
+Qed.
+
+(* assignment between two existing owner objects of the same kind makes the target hold what the source holds (handle
+   and, for a symbol, function); a moved-from source keeps nothing; swap exchanges. Together with closed_iff_unowned:
+   the target's previous library is closed exactly if the target was its last owner, the new one stays mapped *)
+Lemma slots_sp_drop_opt st ho : slots (sp_drop_opt st ho) = slots st.
+Proof.
+  destruct ho as [h|]; simpl; auto. unfold sp_drop. simpl.
+  destruct (Nat.eqb _ 0); reflexivity.
+Qed.
+Lemma slots_sp_copy_opt st ho : slots (sp_copy_opt st ho) = slots st.
+Proof. destruct ho as [h|]; reflexivity. Qed.
+
+Theorem assign_transfers w st i j a b :
+  slot_owner st i = Some a -> slot_owner st j = Some b -> same_kind a b = true ->
+  slot_owner (fst (d_step w st (DAssign i j))) i = Some b /\
+  (i <> j -> slot_owner (fst (d_step w st (DMoveAssign i j))) i = Some b /\
+             slot_owner (fst (d_step w st (DMoveAssign i j))) j = Some (with_h b None)) /\
+  (i <> j -> slot_owner (fst (d_step w st (DSwap i j))) i = Some b /\
+             slot_owner (fst (d_step w st (DSwap i j))) j = Some a).
+Proof.
+  intros Hi Hj Hk. pose proof (slot_owner_nth _ _ _ Hi) as Ni. pose proof (slot_owner_nth _ _ _ Hj) as Nj.
+  simpl. rewrite Hi, Hj, Hk. simpl. split; [|split].
+  - unfold slot_owner. rewrite slots_sp_drop_opt. simpl. rewrite slots_sp_copy_opt.
+    rewrite (nth_error_setn_eq _ _ _ _ Ni). reflexivity.
+  - intros Hne.
+    assert (Nj' : nth_error (setn (slots st) i (Some b)) j = Some (Some b)) by (rewrite nth_error_setn_ne; auto).
+    apply Nat.eqb_neq in Hne. rewrite Hne. apply Nat.eqb_neq in Hne. simpl.
+    unfold slot_owner. rewrite slots_sp_drop_opt. simpl. split.
+    + rewrite nth_error_setn_ne by auto. rewrite (nth_error_setn_eq _ _ _ _ Ni). reflexivity.
+    + rewrite (nth_error_setn_eq _ _ _ _ Nj'). reflexivity.
+  - intros Hne.
+    assert (Nj' : nth_error (setn (slots st) i (Some b)) j = Some (Some b)) by (rewrite nth_error_setn_ne; auto).
+    unfold slot_owner. simpl. split.
+    + rewrite nth_error_setn_ne by auto. rewrite (nth_error_setn_eq _ _ _ _ Ni). reflexivity.
+    + rewrite (nth_error_setn_eq _ _ _ _ Nj'). reflexivity.
 Qed.
 
 (* a failed open creates nothing, raises the dl exception carrying the loader's diagnostic for THIS failure
@@ -299,18 +455,18 @@ Proof. intros Hi Hf. simpl. rewrite Hi, dl_ctor_fail by auto. reflexivity. Qed.
 Theorem open_creates_one w st i f :
   slot_empty st i = true -> lib_exists w f = true ->
   d_step w st (DOpen i f) =
-    (mkD (hs st ++ [mkH f 1 0]) (setn (slots st) i (Some (OLib (length (hs st))))) (pend st) (null_closes st), DOk).
+    (mkD (hs st ++ [mkH f 1 0]) (setn (slots st) i (Some (OLib (Some (length (hs st)))))) (pend st) (null_closes st), DOk).
 Proof. intros Hi Hf. simpl. rewrite Hi, dl_ctor_ok by auto. reflexivity. Qed.
 
 (* a failed symbol look-up raises the dl exception carrying the loader's diagnostic and leaves every handle
    (use counts, close counts) and every owner as they were *)
 Theorem failed_load_keeps_library w n ops i j h s r : let st := d_run w (d_init n) ops in
-  slot_empty st i = true -> slot_owner st j = Some (OLib h) -> nth_error (hs st) h = Some r ->
+  slot_empty st i = true -> slot_owner st j = Some (OLib (Some h)) -> nth_error (hs st) h = Some r ->
   sym_exists w (hlib r) s = false ->
   d_step w st (DLoad i j s) = (mkD (hs st) (slots st) None (null_closes st), DRaise (Some (DgSym (hlib r) s))).
 Proof.
   intros st Hi Hj Hr Hs. pose proof (dinv_reach w n ops) as I. fold st in I.
-  destruct (owner_has_refs st j _ I Hj) as (r' & Hr' & Hpos). simpl in Hr'. rewrite Hr in Hr'. injection Hr' as <-.
+  destruct (owner_has_refs st j _ h I Hj eq_refl) as (r' & Hr' & Hpos). rewrite Hr in Hr'. injection Hr' as <-.
   simpl. rewrite Hi, Hj, (symbol_ctor_spec w st h s r Hr), Hs.
   destruct (sp_copy_spec st h r Hr Hpos (k_cl _ I)) as (E & Hcl & Hrefs).
   set (st1 := mkD (hs (sp_copy st h)) (slots st) None (null_closes st)).
@@ -322,19 +478,19 @@ Proof.
 Qed.
 
 (* a successful look-up succeeds whatever loader error was left pending by unrelated code, and the new symbol
-   object becomes one more owner of the library *)
+   object becomes one more owner of the library, holding a function of that library *)
 Theorem load_ignores_stale_error w n ops i j h s r : let st := d_run w (d_init n) ops in
-  slot_empty st i = true -> slot_owner st j = Some (OLib h) -> nth_error (hs st) h = Some r ->
+  slot_empty st i = true -> slot_owner st j = Some (OLib (Some h)) -> nth_error (hs st) h = Some r ->
   sym_exists w (hlib r) s = true ->
   snd (d_step w st (DLoad i j s)) = DOk /\
-  slot_owner (fst (d_step w st (DLoad i j s))) i = Some (OSym h s).
+  slot_owner (fst (d_step w st (DLoad i j s))) i = Some (OSym (Some h) h s).
 Proof.
   intros st Hi Hj Hr Hs. simpl. rewrite Hi, Hj, (symbol_ctor_spec w st h s r Hr), Hs. simpl. split; auto.
   unfold slot_owner. simpl. apply slot_empty_nth in Hi. rewrite (nth_error_setn_eq _ _ _ _ Hi). reflexivity.
 Qed.
 
-(* complete histories: after every owner object is destroyed, in whatever order they were created, copied or moved,
-   every handle ever opened has been closed exactly once *)
+(* complete histories: after every owner object is destroyed, in whatever order they were created, copied, moved,
+   assigned or swapped, every handle ever opened has been closed exactly once *)
 Lemma d_drop_from_ok n : forall st i, dinv st -> i + n = length (slots st) ->
   let st' := d_drop_from st i n in
   dinv st' /\ length (slots st') = length (slots st) /\ length (hs st') = length (hs st)
@@ -345,7 +501,7 @@ Proof.
   - split; [exact I|]. split; [reflexivity|]. split; [reflexivity|]. split; [reflexivity|]. intros k H1 H2. lia.
   - destruct (slot_owner st i) as [o|] eqn:Ho.
     + destruct (drop_slot_ok st i o I Ho) as (I' & Es & _ & El).
-      set (st1 := sp_drop (set_slot st i None) (owner_h o)) in *.
+      set (st1 := sp_drop_opt (set_slot st i None) (owner_h o)) in *.
       assert (L1 : length (slots st1) = length (slots st)) by (rewrite Es; apply setn_length).
       destruct (IH st1 (S i) I') as (I2 & L2 & H2 & P2 & Q2); [lia|].
       split; [exact I2|]. split; [lia|]. split; [lia|]. split.
@@ -401,9 +557,9 @@ Proof.
   - apply handles_ok_from_spec. intros k r Hr. simpl. rewrite (k_cnt _ I). unfold refs_n. rewrite Hr.
     pose proof (k_cl _ I) as F. rewrite Forall_forall in F. apply F. eapply nth_error_In; eauto.
   - apply Nat.eqb_eq. apply (k_nc _ I).
-  - apply forallb_forall. intros [o|] Ho; simpl; auto. apply Nat.ltb_lt.
-    pose proof (cnt_in okey (owner_h o) _ _ Ho) as C. rewrite holds_okey, Nat.eqb_refl, (k_cnt _ I) in C.
-    apply nth_error_Some. unfold refs_n in C. destruct (nth_error (hs st) (owner_h o)); [discriminate|lia].
+  - apply forallb_forall. intros o Ho. unfold owner_in_range. destruct (okey o) as [h|] eqn:E; auto. apply Nat.ltb_lt.
+    pose proof (cnt_in okey h _ _ Ho) as C. rewrite holds_okey, E in C. simpl in C. rewrite Nat.eqb_refl, (k_cnt _ I) in C.
+    apply nth_error_Some. unfold refs_n in C. destruct (nth_error (hs st) h); [discriminate|lia].
 Qed.
 
 Theorem d_state_ok_reach w n ops : d_state_ok (d_run w (d_init n) ops) = true.
